@@ -110,12 +110,37 @@ def run(ctx):
                 if rv is None:
                     problems.append("unrecognised condition at bb%d" % i)
                     return
-                if rv.get("k") == "binop" and rv["op"] in CMP:
-                    ao, bo = pr.operand(rv["a"]), pr.operand(rv["b"])
-                    a_draw = any(x[0] == "call" and b.term(x[1]).get("callee", {}).get("name") in ("random", "gen", "random_range", "sample") for x in ao)
-                    b_draw = any(x[0] == "call" and b.term(x[1]).get("callee", {}).get("name") in ("random", "gen", "random_range", "sample") for x in bo)
-                    a_rate = {x for x in ao if x[0] in ("arg", "call", "const")} == rate_o
-                    b_rate = {x for x in bo if x[0] in ("arg", "call", "const")} == rate_o
+                # the comparison may be made by a private bool helper that is handed the rate (`self.rng.keeps(rate)`): read it there
+                via_helper = None
+                if rv.get("k") == "call":
+                    hcs = CallSite(b, rv["bb"], rv["term"])
+                    for hb in local_callee_bodies(F, hcs):
+                        if hb.crate != W or hb.locals[0]["ty"] != "bool":
+                            continue
+                        hpr = Prov(hb)
+                        for hi in hb.live_blocks():
+                            for hs in hb.stmts(hi):
+                                if hs["k"] == "assign" and hs["rv"]["k"] == "binop" and hs["rv"]["op"] in CMP:
+                                    hao, hbo = hpr.operand(hs["rv"]["a"]), hpr.operand(hs["rv"]["b"])
+                                    isd = lambda o_: any(x[0] == "call" and hb.term(x[1]).get("callee", {}).get("name") in ("random", "gen", "random_range", "sample") for x in o_)
+                                    par = lambda o_: [x[1] for x in o_ if x[0] == "arg" and not x[2]]
+                                    if isd(hao) and par(hbo):
+                                        via_helper = (hs["rv"]["op"], True, False, par(hbo)[0], hcs)
+                                    elif isd(hbo) and par(hao):
+                                        via_helper = (hs["rv"]["op"], False, True, par(hao)[0], hcs)
+                if (rv.get("k") == "binop" and rv["op"] in CMP) or via_helper:
+                    if via_helper:
+                        hop, a_draw, b_draw, hparam, hcs = via_helper
+                        passed = {x for x in pr.operand(hcs.args[hparam - 1]) if x[0] in ("arg", "call", "const")} if hparam - 1 < len(hcs.args) else set()
+                        a_rate, b_rate = (passed == rate_o and b_draw), (passed == rate_o and a_draw)
+                        ao, bo = (set(), passed) if a_draw else (passed, set())
+                        rv = {"k": "binop", "op": hop}
+                    else:
+                        ao, bo = pr.operand(rv["a"]), pr.operand(rv["b"])
+                        a_draw = any(x[0] == "call" and b.term(x[1]).get("callee", {}).get("name") in ("random", "gen", "random_range", "sample") for x in ao)
+                        b_draw = any(x[0] == "call" and b.term(x[1]).get("callee", {}).get("name") in ("random", "gen", "random_range", "sample") for x in bo)
+                        a_rate = {x for x in ao if x[0] in ("arg", "call", "const")} == rate_o
+                        b_rate = {x for x in bo if x[0] in ("arg", "call", "const")} == rate_o
                     if (a_draw and b_rate) or (b_draw and a_rate):
                         op = rv["op"]
                         if b_draw:   # rate OP draw  ->  draw OP' rate
